@@ -279,6 +279,9 @@ def filters_item(item):
 
 
 def work_entry(item):
+    if str(item.get("type", "")).startswith(("grad", "pipeline")):
+        from . import c19grad
+        return c19grad.work(item)
     if item.get("type") == "filters":
         return filters_item(item)
     if item.get("selftest"):
@@ -289,6 +292,9 @@ def work_entry(item):
 
 
 def replay(body):
+    if body["config"].startswith("grad"):
+        from . import c19grad
+        return c19grad.replay(body)
     spec = pairs()[body["config"]]
     w = body["witness"]
     return replay_shape(spec["build"], spec, w["B"], w["H"], w["W"])[0]
@@ -300,11 +306,29 @@ def main():
     items = [dict(config=nm) for nm in pairs()]
     items.append(dict(type="filters", config="calculate_num_filters_factor_image"))
     items.append(dict(selftest=True, config="selftest"))
+    from . import c19grad
+    gitems = c19grad.all_items()
+    items += gitems
     from kaira.models.image import bourtsoulatze2019_deepjscc as Bm, tung2022_deepjscc_q as Tm
     ck.encoded(Bm.Bourtsoulatze2019DeepJSCCEncoder.forward, Bm.Bourtsoulatze2019DeepJSCCDecoder.forward, Tm.Tung2022DeepJSCCQEncoder.forward, Tm.Tung2022DeepJSCCQDecoder.forward,
                Tm.Tung2022DeepJSCCQ2Encoder.forward, Tm.Tung2022DeepJSCCQ2Decoder.forward)
     ck.bound("sizes", f"batch 1..{BMAX}, height and width in [{HMIN},{HMAX}] that are multiples of the architecture's total stride; output sizes are the integer expressions torch's own symbolic-shape tracer derives from the real modules; regions excluded by a trace's guards are re-traced (<= {MAXTR} traces) until the admissible set is covered")
-    ck.assume("OUTSIDE THE CLAIM: differentiability of channels/constraints (autograd is C++ and symbolic tensors carry no autograd graph), gradient flow to encoder parameters, output value ranges of the image decoders; see DESIGN §6")
+    import kaira.channels.analog as An
+    import kaira.constraints.power as Pw
+    import kaira.constraints.antenna as At
+    import kaira.constraints.signal as Sg
+    from kaira.models.deepjscc import DeepJSCCModel
+    ck.encoded(An._apply_noise, An.AWGNChannel.forward, An.LaplacianChannel.forward, An.PhaseNoiseChannel.forward, An.FlatFadingChannel.forward, An.NonlinearChannel.forward,
+               Pw.TotalPowerConstraint.forward, Pw.AveragePowerConstraint.forward, Pw.PAPRConstraint.forward, At.PerAntennaPowerConstraint.forward, Sg.PeakAmplitudeConstraint.forward,
+               DeepJSCCModel.__init__)
+    ck.bound("gradient clause", f"{len(gitems) - 1} items: analog channels and power constraints on float64 / complex128 tensors of 2..8 elements that require grad (1-D, batch of 1, batch of 2, 3-D), "
+             f"noise draws symbolic (frozen realisation); torch's autograd engine runs its backward formulas on the symbolic tensors and every Jacobian entry is compared by the solver with the symbolic "
+             f"derivative of the stage's own output; domain |x| <= {c19grad.XMAX} (stage-specific where noted), power of every batch item >= {c19grad.PMIN}, forward-pass radicands and divisors >= {c19grad.KINK}; "
+             f"pipelines: DeepJSCCModel(Lin 2x2 with symbolic weights -> constraint -> channel -> Lin) on a fixed 2x2 input, dL/dW entry by entry")
+    ck.assume("gradient clause: 'differentiable' is decided as 'autograd's Jacobian equals the derivative of the function the stage computes, and every backward operation is defined' on the smooth piece selected by each "
+              "path (kinks of clamp / zero-signal fall-backs are excluded by the stated margins); torch's backward formulas themselves (derivatives.yaml) run for real on symbolic scalars and are trusted as torch's semantics")
+    ck.assume("OUTSIDE THE CLAIM: gradients through the convolutional DeepJSCC encoders/decoders themselves (GDN / PReLU stacks: too large for scalar-symbolic execution), output value ranges of the image decoders, "
+              "float rounding of gradients; PAPR clipping rounds, PhaseNoise and long NRA identities are stretch items; see DESIGN §6")
     ck.assume("kernel shape inference of torch (meta/fake kernels) is trusted")
     ck.run_items(__name__, "work_entry", items)
     ck.finish(min_obligations=5)
